@@ -56,26 +56,27 @@ def gen_desc(r):
     cbs["pcb"]["param"] = True
     cbs["pcb"]["ty"] = r.choice(["float", "int"])
     g = lambda p: p if on[p] else None  # noqa
+    ret = lambda t: r.choice([t, t, None, "Any"])  # noqa   a scalar method may lack its return annotation: callbacks fire all the same
     desc = {
         "classes": [
             {"name": "Track", "cb": g("trackcls"),
-             "methods": [{"name": "pt", "ret": "float", "cb": g("trackpt")}, {"name": "eta", "ret": "float"}],
+             "methods": [{"name": "pt", "ret": ret("float"), "cb": g("trackpt")}, {"name": "eta", "ret": ret("float")}],
              "props": [{"name": "getAttr", "cb": "pcb"}]},
-            {"name": "SubTrack", "base": "Track", "methods": [{"name": "x", "ret": "int", "cb": g("subx")}]},
+            {"name": "SubTrack", "base": "Track", "methods": [{"name": "x", "ret": ret("int"), "cb": g("subx")}]},
             # inherited / overridden / own methods under decorated base, decorated subclass, both, neither
             {"name": "Particle", "cb": g("partcls"),
-             "methods": [{"name": "pt", "ret": "float", "cb": g("partpt")}, {"name": "eta", "ret": "float"},
+             "methods": [{"name": "pt", "ret": ret("float"), "cb": g("partpt")}, {"name": "eta", "ret": ret("float")},
                          {"name": "phi", "ret": "float"}]},
             {"name": "Lepton", "base": "Particle", "cb": g("lepcls"),
-             "methods": [{"name": "eta", "ret": "float", "cb": g("lepeta")}, {"name": "iso", "ret": "float", "cb": g("lepiso")}]},
+             "methods": [{"name": "eta", "ret": ret("float"), "cb": g("lepeta")}, {"name": "iso", "ret": ret("float"), "cb": g("lepiso")}]},
             {"name": "Muon", "base": "Lepton", "cb": g("mucls"), "methods": [{"name": "hits", "ret": "float"}]},
             {"name": "Jet", "cb": g("jetcls"),
-             "methods": [{"name": "pt", "ret": "float", "cb": g("jetpt")},
+             "methods": [{"name": "pt", "ret": ret("float"), "cb": g("jetpt")},
                          {"name": "trks", "ret": "Iterable[Track]", "cb": g("jettrks")},
                          {"name": "subs", "ret": "Iterable[SubTrack]"},
                          {"name": "leps", "ret": "Iterable[Lepton]"}]},
             {"name": "Event", "cb": g("evcls"),
-             "methods": [{"name": "Jets", "ret": "Iterable[Jet]", "cb": g("evjets")}, {"name": "met", "ret": "float"},
+             "methods": [{"name": "Jets", "ret": "Iterable[Jet]", "cb": g("evjets")}, {"name": "met", "ret": ret("float")},
                          {"name": "Muons", "ret": "Iterable[Muon]"}, {"name": "LeadLep", "ret": "Lepton"},
                          {"name": "LeadMu", "ret": "Muon"}, {"name": "Parts", "ret": "Iterable[Particle]"}]},
         ],
